@@ -1,7 +1,7 @@
 """C04 — Well-formed programs parse error-free with Gleam's structure (operator grouping, FIRST sets)."""
 from lib import flow as FL
 from lib import teval
-from lib.facts import callee, op_local, op_place
+from lib.facts import callee, callee_def, op_local, op_place
 from rules import parser_model as PM
 
 META = {
@@ -136,6 +136,26 @@ def run(F, res, tier):
             ob, pb = field_path(d.origin_op(rv["b"]))
             if (oa.get("k") == "call" and callee(oa["t"]) == SK + "::infix_bp") or (ob.get("k") == "call" and callee(ob["t"]) == SK + "::infix_bp"):
                 cmps.append((rv["op"], tuple(str(x) for x in pa), ob.get("k"), ob.get("n")))
+    # the same two tests written as `match lbp.cmp(&min_bp) { Equal => .., Less => .., Greater => .. }`
+    for b, t in eb.calls():
+        c = callee(t) or callee_def(t) or ""
+        if not (c.endswith("::cmp") and "Ord" in c):
+            continue
+
+        def deref(op):
+            o = d.origin_op(op)
+            if o.get("k") == "rv" and o["rv"]["k"] == "ref":
+                o = d.origin_place(o["rv"]["place"])
+            return o
+        oa, pa = field_path(deref(t["args"][0]))
+        ob, pb = field_path(deref(t["args"][1]))
+        nb = t.get("target")
+        tt = eb.term(nb) if nb is not None else None
+        if oa.get("k") == "call" and callee(oa["t"]) == SK + "::infix_bp" and tt and tt["k"] == "switch":
+            tg = dict((v, x) for v, x in tt["targets"])
+            if 0 in tg and 255 in tg and tg[0] != tg[255] and tg[0] != tg.get(1, tt["otherwise"]):
+                cmps.append(("Eq", tuple(str(x) for x in pa), ob.get("k"), ob.get("n")))
+                cmps.append(("Lt", tuple(str(x) for x in pa), ob.get("k"), ob.get("n")))
     want_cmp = sorted([("Eq", ("Some", "0", "0"), "arg", 2), ("Lt", ("Some", "0", "0"), "arg", 2)])
     alt_cmp = sorted([("Eq", ("0", "0"), "arg", 2), ("Lt", ("0", "0"), "arg", 2)])
     res.ob("G2", "comparisons", "the loop compares the *left* power (field 0) of the same pair with the min_bp parameter: "
@@ -279,6 +299,8 @@ def run(F, res, tier):
 def thorough(F, res):
     from lib import pcache as _pc
     _pc.crosscheck(F, res)
+    from lib import shape as _sh
+    _sh.crosscheck(F, res)
 
 
 # accessor pairs whose target types overlap but whose indices account for it (read, one reason each)
